@@ -54,6 +54,7 @@ struct Sys {
     clock_off: i64,
     ticks: Vec<i64>,
     creations: u64,
+    init_vs: Vec<Violation>,
 }
 
 fn ann_id(a: &Announcement) -> Vec<u8> {
@@ -73,7 +74,7 @@ impl Sys {
         }
         // Only the first repository is seeded at start, so only it is in the initial inventory.
         let s = svc::build(svc::Build { storage: st, seed: vec![(rids[0], Scope::All)], ..Default::default() });
-        let mut sys = Sys { svc: s, obs: obs.clone(), rids, seen: BTreeSet::new(), max_ts: 0, max_what: "nothing".into(), clock_off: 0, ticks, creations: 0 };
+        let mut sys = Sys { svc: s, obs: obs.clone(), rids, seen: BTreeSet::new(), max_ts: 0, max_what: "nothing".into(), clock_off: 0, ticks, creations: 0, init_vs: vec![] };
         let mut vs = vec![];
         let ios = svc::drain(&mut sys.svc);
         sys.observe(ios, &mut vs);
@@ -83,7 +84,9 @@ impl Sys {
         sys.svc.received_message(obs.id, Message::Subscribe(Subscribe::all()));
         let ios = svc::drain(&mut sys.svc);
         sys.observe(ios, &mut vs);
-        assert!(vs.is_empty(), "baseline observation must be clean: {:?}", vs.iter().map(|v| &v.what).collect::<Vec<_>>());
+        // Violations among the announcements signed during start-up and the first connection
+        // (node, inventory, pre-loaded refs) are reported for the empty history by `main`.
+        sys.init_vs = vs;
         sys
     }
 
@@ -244,7 +247,12 @@ fn main() {
     }
     let (depth, devs) = if thorough { (7, 3) } else { (5, 2) };
     let t = ticks.clone();
-    let res = explore::explore("C29", move || Sys::new(t.clone()), Bounds::new(depth, devs).wall_secs(if thorough { 1500 } else { 50 }));
+    let mut res = explore::explore("C29", move || Sys::new(t.clone()), Bounds::new(depth, devs).wall_secs(if thorough { 1500 } else { 50 }));
+    for mut v in Sys::new(ticks.clone()).init_vs {
+        v.fingerprint = format!("{}/during-start-up", v.fingerprint);
+        v.witness = json!({"history": [], "detail": v.witness});
+        res.violations.push(v);
+    }
     let mut cov = res.coverage(
         "BFS over histories of {Tick(Δ) for Δ in the tick alphabet (negative = clock moves backwards, 0 = stalls), OwnRefs(repo), AddInventory, Unseed, Seed, FetchedClone} on a real Service \
          with one connected subscribed observer; deviations = non-positive ticks; a creation is the first byte-distinct appearance of an announcement authored by the local node in the outbox or the gossip store",
